@@ -296,8 +296,14 @@ class RemoteWorker(Worker, metaclass=RemoteWorkerMeta):
             self._child.join(timeout)
             if self._child.is_alive():
                 if force:
+                    # signals are not delivered instantly, so give the OS a moment even if called with timeout=0
+                    grace = timeout if timeout is None else max(timeout, 1)
                     self._child.terminate()
-                    self._child.join(timeout)
+                    self._child.join(grace)
+                    if self._child.is_alive():
+                        # SIGTERM stays pending e.g. for a stopped process
+                        self._child.kill()
+                        self._child.join(grace)
                     try:
                         send_msg(self._socket, (False, None), comment='data: force terminate result')
                         self._socket.close()
@@ -348,7 +354,9 @@ class RemoteWorker(Worker, metaclass=RemoteWorkerMeta):
                 self._ctrl_sock.close()
                 self._remote_dead = True
 
-            self._child.join(timeout)
+            # the remote child is gone, the frontend thread only needs a moment to notice - do not resort
+            # to killing ourselves just because we were called with a tiny timeout
+            self._child.join(timeout if timeout is None or not force else max(timeout, 1))
             if self._child.is_alive() and force:
                 os.kill(os.getpid(), signal.SIGTERM)
 
